@@ -230,6 +230,11 @@ class View:
         return any(e.task is None and e.unit[0] == "fx" and e.unit[2] == "setup" and self.byprim[e.unit[1]]["scope"] == "pre_run"
                    and not self.clean(e) for e in self.execs)
 
+    def prerun_teardown_failed(self):
+        """a pre_run fixture's teardown (user code) raised: run_suites reports it by raising after the session"""
+        return any(e.task is None and e.unit[0] == "fx" and e.unit[2] == "teardown" and self.byprim[e.unit[1]]["scope"] == "pre_run"
+                   and not self.clean(e) for e in self.execs)
+
     def fault_fired(self):
         return self.backend_raise is not None
 
@@ -266,7 +271,7 @@ def c01(project, obs, view=None):
             out.append(F("C01/disabled-body-executed", "disabled test %s was executed without --force-disabled" % ".".join(tp)))
     if v.prerun_failed() or v.fault_fired():
         return out      # the session did not take place / the report writer's event loop was stopped on purpose
-    if "raised" in oc:
+    if "raised" in oc and not (v.prerun_teardown_failed() and "fixture teardown (scope 'pre_run')" in oc.get("text", "")):
         out.append(F("C01/run-raised/" + oc["raised"], "run_suites raised %s on a valid project: %s" % (oc["raised"], oc["text"][:300])))
     for tp, info in v.tests.items():
         es = v.report_test_entries(list(tp))
